@@ -186,6 +186,10 @@ TEXTS = {
     "es1": (["el ", ("d", 2), " de enero de 2015 y hace ", ("n", 2), " semanas"], ["es"]),
     "zh1": (["2015年", ("m", 2), "月", ("d", 2), "日"], ["zh"]),
     "yue1": (["上個月 ", ("d", 2)], ["yue"]),
+    # a hit with a zone, then a two-digit-year date (each hit is re-parsed relative to the previous one)
+    "en3": (["Sent 12 March 2015 14:00 EST, received ", ("d", 2), "/04/16 late"], ["en"]),
+    # a hit at the very start of the calendar, then a weekday (resolved relative to it)
+    "en4": (["Founded on 01/01/0001. We are open on Friday. Room ", ("n", 2)], ["en"]),
     # language-specific preprocessing of the text (Russian "с <number>"): hits must still be substrings of the text given
     "ru2": (["Встреча ", ("d", 2), " января с ", ("H", 2), ":00 до 12:00"], ["ru"]),
     "ru3": (["Работаем с ", ("d", 2), " января по 15 января ", ("Y", 4)], ["ru"]),
@@ -197,6 +201,9 @@ TEXTS = {
     "zh_sep": (["会议 - - 结束 ", ("n", 2)], ["zh"]),
     "bn_sep": (["সভা . . : ", ("n", 2)], ["bn"]),
 }
+
+
+CHAINED = ("en3", "en4")       # templates whose point is that a later hit is parsed relative to an earlier one (no RELATIVE_BASE)
 
 
 def h_pipeline(name, detect, with_base, add_lang=False, only=None):
@@ -353,13 +360,14 @@ def tasks(tier, seed):
         fields = [p[0] for p in TEXTS[nm][0] if not isinstance(p, str)]
         if quick:
             only = fields[(i + seed) % len(fields)]
-            add("pipeline:%s:given:%s" % (nm, only), "h_pipeline", {"name": nm, "detect": False, "with_base": bool(i % 2),
+            add("pipeline:%s:given:%s" % (nm, only), "h_pipeline", {"name": nm, "detect": False, "with_base": bool(i % 2) and nm not in CHAINED,
                                                                     "add_lang": bool(i % 3 == 0), "only": only}, 100)
             if i % 4 == seed % 4:
                 add("pipeline:%s:detect:%s" % (nm, only), "h_pipeline", {"name": nm, "detect": True, "with_base": False,
                                                                          "add_lang": True, "only": only}, 100)
         else:
-            add("pipeline:%s:given" % nm, "h_pipeline", {"name": nm, "detect": False, "with_base": bool(i % 2), "add_lang": bool(i % 3 == 0)}, 400)
+            add("pipeline:%s:given" % nm, "h_pipeline", {"name": nm, "detect": False, "with_base": bool(i % 2) and nm not in CHAINED,
+                                                         "add_lang": bool(i % 3 == 0)}, 400)
             add("pipeline:%s:detect" % nm, "h_pipeline", {"name": nm, "detect": True, "with_base": False, "add_lang": True}, 400)
     return out
 
